@@ -256,11 +256,13 @@ fn c18_q_hostile_handshake_req() {
 #[cfg_attr(kani, kani::stub(RingBuf::free, model_free))]
 #[cfg_attr(kani, kani::stub(embassy_time::Instant::now, crate::verif_support::stub_instant_now))]
 #[cfg_attr(not(kani), test)]
-fn c18_t_transfer_two_segments() {
+fn c18_x_transfer_two_segments() {
     let mut a = Session::new();
     let mut b = Session::new();
     let ws = any_u8();
-    assume(ws >= 2 && ws <= 6);
+    // (a window of 2 admits one data segment before the peer's acknowledgement is needed - the
+    // last slot is reserved for acknowledgements; this scene sends two back to back)
+    assume(ws >= 3 && ws <= 6);
     a.setup(PEER, 4, 20, ws);
     b.setup(BtAddr([6, 5, 4, 3, 2, 1]), 4, 20, ws);
     // arbitrary (equal on both sides) sequence-number phase, wrap included
